@@ -75,3 +75,13 @@ async fn scenarios() {
 async fn replay_synchronize_signers() { scenarios().await }
 #[tokio::test]
 async fn replay_synchronize_all_signers() { scenarios().await }
+
+/// the follower synchronizes only when the leader is at the SAME epoch
+#[tokio::test]
+async fn replay_can_synchronize_signers() {
+    let (f, _) = follower(Epoch(8), vec![], vec![]);
+    for (e, expected) in [(Epoch(7), false), (Epoch(8), true), (Epoch(9), false)] {
+        let got = crate::services::SignerSynchronizer::can_synchronize_signers(&f, e).await.unwrap();
+        assert_eq!(got, expected, "can_synchronize_signers({:?}) with the leader at epoch 8 answered {}", e, got);
+    }
+}
